@@ -30,6 +30,7 @@ MC = """CONSTANTS
   MaxDup = %d
   MaxTimeouts = %d
   ChanCap = 5
+  ClientSkipsLateSyn = %s
 SPECIFICATION %s
 %s
 CHECK_DEADLOCK FALSE
@@ -42,6 +43,7 @@ TR = """CONSTANTS
   MaxDup = 0
   MaxTimeouts = 0
   ChanCap = 0
+  ClientSkipsLateSyn = TRUE
   TraceFile = "%s"
 SPECIFICATION TraceSpec
 INVARIANTS AgreeN SrvNProposed
@@ -56,20 +58,29 @@ def run(ctx):
     stale = [(0, 0), (1, 0), (0, 1), (3, 6), (4, 7), (2, 8), (0, 2), (0, 3), (5, 5)]
     for ci, si in stale:
         r = tlc(ctx, "MC_GBNHandshake",
-                MC % (2, ci, si, 2 if quick else 3, 1, 3 if quick else 4, "Spec",
-                      "INVARIANTS AgreeN SrvNProposed Terminal"),
+                MC % (2, ci, si, 2 if quick else 3, 1, 3 if quick else 4, "TRUE", "Spec",
+                      "INVARIANTS AgreeN SrvNProposed Terminal UsableWithoutStale"),
                 "mc_hs_%d_%d" % (ci, si), workers=8, timeout=1200)
         if not r["ok"]:
             raise Infra("GBNHandshake.tla violates %s" % r["violated"])
         states += r["distinct"]
         trans += r["generated"]
     r = tlc(ctx, "MC_GBNHandshake",
-            MC % (2, 0, 0, 0, 0, 2, "LiveSpec", "PROPERTY Converges"),
+            MC % (2, 0, 0, 0, 0, 2, "TRUE", "LiveSpec", "PROPERTY Converges"),
             "mc_hs_live", workers=4, timeout=1200)
     if not r["ok"]:
         raise Infra("GBNHandshake.tla does not converge")
     states += r["distinct"]
     trans += r["generated"]
+    # the repaired deviation: a client that closes on a late SYN answer loses
+    # an established connection through delay alone (two handshake timeouts,
+    # no loss, nothing stale) - TLC must show that
+    m = tlc(ctx, "MC_GBNHandshake",
+            MC % (2, 0, 0, 0, 0, 3, "FALSE", "Spec", "INVARIANTS UsableWithoutStale"),
+            "mc_hs_latesyn", workers=4, timeout=1200)
+    if m["violated"] != "UsableWithoutStale":
+        raise Infra("the late-SYN deviation is not shown by UsableWithoutStale (got %s)"
+                    % m["violated"])
 
     binary = build_drivers(ctx)
     out = ctx.sub("c10")
